@@ -16,7 +16,8 @@ import (
 // panics, nil results, script errors) end runs at arbitrary points.
 
 const (
-	c07TickSlack = 16
+	c07FootprintSlack = 8
+	c07TickSlack      = 16
 	c07HardCap   = 6000
 )
 
@@ -105,6 +106,13 @@ func (p *c07) Enumerate(tier string) [][]int32 {
 					out = append(out, []int32{1, int32(si), int32(oi), int32(opt), 1, int32(k)})
 				}
 			}
+		}
+	}
+	// long histories: 60 runs with a fault every few runs; what the evaluator
+	// holds on to must not grow with the number of runs
+	for si := range c07Corpus {
+		for oi := 1; oi < len(c07Objs); oi += 2 {
+			out = append(out, []int32{2, int32(si), int32(oi), int32(si % 2)})
 		}
 	}
 	return out
@@ -209,7 +217,7 @@ func (s *evalSide) exec(r *c07Run) (res Result) {
 
 func (p *c07) Run(c *verifsim.Chooser, st *Stats, render bool) *Outcome {
 	o := &Outcome{}
-	mode := c.Intn(2)
+	mode := []int{0, 1, 2, 0, 0, 0, 0, 0}[c.Intn(8)]
 	var text string
 	var globals, scoped []string
 	var runs []*c07Run
@@ -234,6 +242,29 @@ func (p *c07) Run(c *verifsim.Chooser, st *Stats, render bool) *Outcome {
 			{Obj: obj, ObjDesc: fmt.Sprintf("%+v", obj)},
 		}
 		currentDesc.Store(fmt.Sprintf("corpus[%d]", si))
+	} else if mode == 2 {
+		si := c.Intn(len(c07Corpus))
+		oi := c.Intn(len(c07Objs))
+		opt = c.Intn(2) == 0
+		text = c07Corpus[si]
+		globals, scoped = analyseNames(text)
+		for i := 0; i < 60; i++ {
+			obj := c07Objs[(oi+i%2)%len(c07Objs)]
+			r := &c07Run{Obj: obj, ObjDesc: fmt.Sprintf("%+v", obj), UseRun: i%9 == 4}
+			switch {
+			case i%5 == 3:
+				r.Fault, r.K = "cancel", 3+(i*7)%40
+			case i%7 == 5:
+				r.Fault, r.K = "host-panic-any", i%3
+			case i%11 == 8:
+				r.Fault, r.K = "cancel-in-host", i%2
+			}
+			if i >= 57 {
+				r.Fault = ""
+			}
+			runs = append(runs, r)
+		}
+		currentDesc.Store(fmt.Sprintf("long history corpus[%d]", si))
 	} else {
 		sc := GenScript(c, GenCfg{Funcs: true, Faults: true, Hashes: true})
 		text, globals, scoped = sc.Text, sc.Globals, sc.Scoped
@@ -256,6 +287,8 @@ func (p *c07) Run(c *verifsim.Chooser, st *Stats, render bool) *Outcome {
 		initKind = c.Intn(3)
 		nruns = 2 + c.Intn(9)
 	}
+	var fp0 int64
+	fpSet := false
 	switch initKind {
 	case 0:
 		L.e.SetVariable("g0", &object.Integer{Value: 0})
@@ -275,7 +308,7 @@ func (p *c07) Run(c *verifsim.Chooser, st *Stats, render bool) *Outcome {
 
 	for i := 0; i < nruns; i++ {
 		var r *c07Run
-		if mode == 1 {
+		if mode != 0 {
 			r = runs[i]
 		} else {
 			r = &c07Run{}
@@ -416,6 +449,16 @@ func (p *c07) Run(c *verifsim.Chooser, st *Stats, render bool) *Outcome {
 				}
 				detail = "the prepared program, as Dump() prints it, is no longer what it was right after Prepare:\n" + firstDiff(dump0, d)
 			}
+		}
+		if obs == "" && (i == 0 || i == nruns-1 || i%10 == 9) {
+			// what the reused evaluator holds on to, relative to the fresh one
+			d := footprint(L.e) - footprint(F.e)
+			if !fpSet {
+				fp0, fpSet = d, true
+			} else if d-fp0 > c07FootprintSlack {
+				obs, detail = "footprint", fmt.Sprintf("after %d runs the reused evaluator holds %d more slice/map entries (relative to a fresh one) than after its first run", i+1, d-fp0)
+			}
+			st.max("footprint_growth_over_history", d-fp0)
 		}
 		if obs != "" {
 			if rf.Failed && (obs == "scopes" || obs == "stack" || strings.HasPrefix(obs, "dump") || obs == "scoped-name-visible") {
